@@ -54,7 +54,7 @@ stubs_c20.install_quote()
 stubs_c20.validate()          # both stubs against urllib.parse.quote / json.dumps on concrete inputs
 
 LT, GT, DQ, SQ, AMP = 60, 62, 34, 39, 38
-STATUS = {"404": "404", "405": "405", "400": "400", "400after": "400", "500": "500", "500gen": "500",
+STATUS = {"404": "404", "405": "405", "400": "400", "400after": "400", "500": "500", "500gen": "500", "500prepared": "500",
           "500text": "500", "critical": "500"}
 
 
@@ -100,6 +100,13 @@ def build_app(kind):
             yield
         return gen()
 
+    def crash_prepared(x=None):
+        # the handler announces the payload it means to send (length, type) and fails before delivering it
+        app.response.headers["Content-Length"] = "12"
+        app.response.content_type = "application/x-payload"
+        app.response.headers["X-Export"] = "1"
+        raise RuntimeError("export failed")
+
     def corrupt(x=None):
         app.response._headers = None     # headerlist fails -> Ombott.wsgi falls back to the last-resort page
         return "x"
@@ -108,7 +115,7 @@ def build_app(kind):
         app.route("/ok")(fine)
         return app
     handler, method = {"405": (fine, "PUT"), "500": (crash, "GET"), "500text": (crash_text, "GET"),
-                       "500gen": (crash_late, "GET"), "critical": (corrupt, "GET")}[kind]
+                       "500gen": (crash_late, "GET"), "critical": (corrupt, "GET"), "500prepared": (crash_prepared, "GET")}[kind]
     for rule in ("/", "/p/<x>"):
         app.route(rule, method=method)(handler)
     return app
@@ -404,6 +411,11 @@ def response_failure(kind, neutral, calls, body, text, json_requested):
     if status[:3] != STATUS[kind]:
         return "error kind %s answered with status %r: %r" % (kind, status, body)
     ctype = content_type(headers)
+    declared = [v for k, v in headers if k.lower() == "content-length"]
+    if len(declared) > 1 or (declared and declared[0] != str(len(body))):
+        # a client reads the declared number of bytes: what it gets is not the page / document the framework rendered
+        return "error response of %d bytes declared with Content-Length %r: the client receives %r" % (
+            len(body), declared, body[:int(declared[0])] if declared[0].isdigit() else body)
     if json_requested or "json" in ctype:
         if not is_json(body):
             return "JSON %s (Content-Type %r) but the body is not valid JSON: %r" % (
@@ -506,6 +518,7 @@ def html_plan(tier):
             ("404", "path", "plain", 1, 100), ("critical", "path", "entity", 2, 150), ("critical", "path", "plain", 2, 100),
             ("500", "qs", "plain", 1, 60), ("500", "host", "plain", 1, 60), ("405", "host", "plain", 1, 60),
             ("500gen", "qs", "plain", 1, 60), ("500text", "qs", "plain", 1, 60), ("500text", "host", "plain", 1, 60),
+            ("500prepared", "qs", "plain", 1, 60),
             ("400", "qs", "plain", 1, 60), ("400", "path", "plain", 1, 60), ("400", "host", "plain", 1, 60),
             ("400after", "qs", "plain", 1, 60), ("400after", "host", "plain", 1, 60),
             ("critical", "qs", "plain", 1, 60), ("critical", "host", "plain", 1, 60),
@@ -550,7 +563,7 @@ def queries(tier):
                      config={"kind": kind, "pos": pos, "template": template, "n": n}))
     # HTML or JSON (solver variable) for every kind; the Accept spellings are enumerated
     tails = [("bare", "")] + ([("param", "; charset=utf-8"), ("list", ", text/html;q=0.9")] if T else [])
-    for kind in ("404", "405", "500", "500gen", "400", "critical"):
+    for kind in ("404", "405", "500", "500gen", "500prepared", "400", "critical"):
         for tag, accept_tail in tails if kind == "404" else tails[:1]:
             n = 2 if T else 1
             out.append(Q("accept/%s/%s" % (kind, tag), make_accept(kind, accept_tail, n),
